@@ -101,7 +101,18 @@ inline unsigned ncpu()
     const char* e = getenv("VERIF_JOBS");
     if (e && atoi(e) > 0) return atoi(e);
     unsigned n = std::thread::hardware_concurrency();
-    return n ? n : 4;
+    if (!n) n = 4;
+    // development-time throttle (many workers share this machine): an optional cap in <root>/build/.jobs_cap.
+    // build/ is not part of the committed tree, so a fresh checkout uses all cores.
+    static int cap = [] {
+        const char* r = getenv("VERIF_ROOT");
+        std::ifstream f(std::string(r ? r : "/verif") + "/build/.jobs_cap");
+        int c = 0;
+        if (f >> c && c > 0) return c;
+        return 0;
+    }();
+    if (cap > 0 && (unsigned)cap < n) n = cap;
+    return n;
 }
 
 // ---------------------------------------------------------------- evidence
